@@ -19,6 +19,11 @@ type ProgCfg struct {
 	SplitStage bool
 	TopMapped  bool
 	Preflight  bool
+	// Wildcards: some calls bind parameters through "* = self".
+	Wildcards bool
+	// Decorate adds cosmetic-but-semantic clauses: stage resources, help
+	// strings, src strings with arguments.
+	Decorate bool
 	// NoFiles: no file-ish types at all.
 	NoFiles bool
 	// Values config for literals.
@@ -60,6 +65,8 @@ type source struct {
 }
 
 type pgen struct {
+	// curParam: name of the callee parameter being bound (wildcard naming).
+	curParam string
 	// forceFlag: the next call gets this disabling condition (chain mode).
 	forceFlag *Ref
 	chain     bool
@@ -289,6 +296,36 @@ func (g *pgen) genStage(i int) *Stage {
 		}
 		s.Outs = append(s.Outs, Param{Name: outNames[j], T: ty})
 	}
+	if g.cfg.Decorate {
+		if rapid.IntRange(0, 2).Draw(t, "resources") == 0 {
+			r := &Resources{}
+			r.MemGB = rapid.SampledFrom([]string{"", "1", "2", "0.05", "1.5", "-4", "3e0", "0.125"}).Draw(t, "mem")
+			r.Threads = rapid.SampledFrom([]string{"", "1", "2", "0.5", "0.01", "-1", "1.5"}).Draw(t, "threads")
+			r.VMemGB = rapid.SampledFrom([]string{"", "", "8", "16.5"}).Draw(t, "vmem")
+			r.Special = rapid.SampledFrom([]string{"", "", "highmem", "a b", "q\"x", "esc\\n"}).Draw(t, "special")
+			r.Volatile = rapid.SampledFrom([]string{"", "", "strict", "false"}).Draw(t, "volatile")
+			if *r != (Resources{}) {
+				s.Res = r
+			}
+		}
+		s.SrcLang = rapid.SampledFrom([]string{"comp", "comp", "exec", "py"}).Draw(t, "lang")
+		switch s.SrcLang {
+		case "py":
+			s.SrcPath = rapid.SampledFrom([]string{"stages/x", "stages/with_underscore", "é/stage"}).Draw(t, "pyPath")
+		default:
+			s.SrcPath = rapid.SampledFrom([]string{"bin/tool", "bin/tool arg1 arg2", "tool --flag=1", "bin/t  two  spaces", "a\\b", "t\targ"}).Draw(t, "srcPath")
+		}
+		for j := range s.Ins {
+			if rapid.IntRange(0, 3).Draw(t, "help") == 0 {
+				s.Ins[j].Help = rapid.SampledFrom([]string{"help text", "with \"quotes\"", "back\\slash", "new\nline", "é ü", ""}).Draw(t, "helpText")
+			}
+		}
+		for j := range s.Outs {
+			if rapid.IntRange(0, 3).Draw(t, "help") == 0 {
+				s.Outs[j].Help = rapid.SampledFrom([]string{"the output", "tab\there", "q\"q"}).Draw(t, "helpText")
+			}
+		}
+	}
 	if g.cfg.SplitStage && rapid.IntRange(0, 2).Draw(t, "split") == 0 {
 		s.Split = true
 		s.ChunkIns = []Param{{Name: "chunk_in", T: Ty{Base: rapid.SampledFrom([]string{"int", "string", "float"}).Draw(t, "chunkInT")}}}
@@ -442,6 +479,12 @@ func (g *pgen) newInput(ty Ty, flag bool) source {
 	name := plInNames[len(g.pl.Ins)%len(plInNames)]
 	if len(g.pl.Ins) >= len(plInNames) {
 		name = fmt.Sprintf("%s%d", name, len(g.pl.Ins))
+	}
+	if g.cfg.Wildcards && g.curParam != "" && FindParam(g.pl.Ins, g.curParam) == nil && rapid.Bool().Draw(g.t, "nameLikeParam") {
+		name = g.curParam // allows "* = self"
+	}
+	for n := 2; FindParam(g.pl.Ins, name) != nil; n++ {
+		name = fmt.Sprintf("%s_%d", name, n)
 	}
 	g.pl.Ins = append(g.pl.Ins, Param{Name: name, T: ty, Flag: flag})
 	s := source{ref: Ref{Out: name}, t: ty, nonNull: flag}
@@ -664,6 +707,37 @@ func (g *pgen) genPipeline(idx int, isTop bool) {
 			pl.Ret = append(pl.Ret, Binding{Param: name, E: Ref{Out: in.Name}})
 		}
 	}
+	if g.cfg.Wildcards {
+		// "* = self" binds every callee parameter that has a pipeline
+		// input of the same name: usable when all of those are bound to
+		// exactly that input.
+		for _, c := range pl.Calls {
+			if c.Mapped {
+				continue
+			}
+			ins, _, _ := g.prog.Callable(c.Callee)
+			ok, any := true, false
+			for _, p := range ins {
+				if FindParam(pl.Ins, p.Name) == nil {
+					continue
+				}
+				match := false
+				for _, b := range c.Bindings {
+					if r, isRef := b.E.(Ref); b.Param == p.Name && isRef && r.Call == "" && r.Out == p.Name && len(r.Path) == 0 {
+						match = true
+					}
+				}
+				if match {
+					any = true
+				} else {
+					ok = false
+				}
+			}
+			if ok && any {
+				c.WildcardSelf = rapid.Bool().Draw(t, "wildcard")
+			}
+		}
+	}
 	g.prog.Pipelines = append(g.prog.Pipelines, pl)
 }
 
@@ -730,7 +804,9 @@ func (g *pgen) genCallBindings(c *Call) {
 			c.Bindings = append(c.Bindings, Binding{Param: in.Name, E: g.genFlagExpr()})
 			continue
 		}
+		g.curParam = in.Name
 		e := g.genExprFor(in.T, 0)
+		g.curParam = ""
 		if in.SplitSrc {
 			// the callee maps over this input
 			for tries := 0; tries < 6 && g.badSplitFeed(e); tries++ {
